@@ -555,5 +555,59 @@ theorem C07_ext_roundtrip (items : List ExtItem)
     decExtItems fuel (encExtItems items) = some items :=
   decExtItems_enc items hwf fuel hfuel
 
+/-! ### the layouts of RFC 9174, written from the RFC (not from the code)
+
+  §4.2 contact header; §4.6 SESS_INIT; §5.1.1 KEEPALIVE; §5.1.2 MSG_REJECT (reason code, then the
+  rejected message header); §5.2.2 XFER_SEGMENT; §5.2.3 XFER_ACK; §5.2.4 XFER_REFUSE; §6.1 SESS_TERM. -/
+
+def rfcEncode : Msg → Bytes
+  | .contact flags => [0x64, 0x74, 0x6e, 0x21] ++ u8 4 ++ u8 flags
+  | .sessInit ka sm xm node ext =>
+      u8 7 ++ u16 ka ++ u64 sm ++ u64 xm ++ u16 node.length ++ node ++ u32 ext.length ++ ext
+  | .sessTerm flags reason => u8 5 ++ u8 flags ++ u8 reason
+  | .xferSegment flags tid ext data =>
+      u8 1 ++ u8 flags ++ u64 tid
+      ++ (if hasStart flags then u32 ext.length ++ ext else []) ++ u64 data.length ++ data
+  | .xferAck flags tid len => u8 2 ++ u8 flags ++ u64 tid ++ u64 len
+  | .xferRefuse reason tid => u8 3 ++ u8 reason ++ u64 tid
+  | .keepalive => u8 4
+  | .msgReject rejId reason => u8 6 ++ u8 reason ++ u8 rejId
+
+def Msg.isReject : Msg → Bool
+  | .msgReject .. => true
+  | _ => false
+
+/-- **Encoding conforms to RFC 9174** for every message except MSG_REJECT: the octets the
+    implementation's encoder produces are the RFC's layout of the same fields (so an independent RFC
+    decoder reads back the same fields, and by `C07_probe_complete` the implementation reads back what
+    an independent RFC encoder wrote). -/
+theorem C07_rfc_layout_partial (m : Msg) (h : m.isReject = false) : encode m = rfcEncode m := by
+  cases m with
+  | msgReject a b => simp [Msg.isReject] at h
+  | xferSegment flags tid ext data =>
+    simp only [encode, Msg.type, Msg.body, rfcEncode, tXferSegment]
+    split <;> simp [List.append_assoc]
+  | contact f => simp [encode, Msg.body, rfcEncode, magic, List.append_assoc]
+  | sessInit ka sm xm node ext => simp [encode, Msg.type, Msg.body, rfcEncode, tSessInit, List.append_assoc]
+  | sessTerm f r => simp [encode, Msg.type, Msg.body, rfcEncode, tSessTerm, List.append_assoc]
+  | xferAck f t l => simp [encode, Msg.type, Msg.body, rfcEncode, tXferAck, List.append_assoc]
+  | xferRefuse r t => simp [encode, Msg.type, Msg.body, rfcEncode, tXferRefuse, List.append_assoc]
+  | keepalive => simp [encode, Msg.type, Msg.body, rfcEncode, tKeepalive]
+
+/-- The full statement (every message type) is false of the code as it is: MSG_REJECT is encoded with
+    the rejected message type *before* the reason code, the reverse of RFC 9174 §5.1.2 — known finding
+    `C07:msg-reject-field-order` (the repository's own unit test pins the reversed octets, so the
+    repair cannot be made without editing the test suite). -/
+theorem C07_rfc_layout_counterexample : ¬ (∀ m : Msg, encode m = rfcEncode m) := by
+  intro h
+  have := h (.msgReject 1 3)
+  revert this
+  decide
+
+/-- what the implementation does instead: the two fields are swapped -/
+theorem C07_reject_swapped (rejId reason : Nat) :
+    encode (.msgReject rejId reason) = rfcEncode (.msgReject reason rejId) := by
+  simp [encode, Msg.type, Msg.body, rfcEncode, tMsgReject, List.append_assoc]
+
 end Tcpcl
 end DtnVerif
